@@ -40,7 +40,7 @@ def font_trace(data, src, src_kind, limits_user, lims_full, locs, optimize, seed
             return {"k": "skip", "why": "VARC font (instancing across VarComponent axes is not supported)"}
         tags = [a.axisTag for a in font["fvar"].axes]
         interner = common.Interner()
-        tr = {"k": "font", "src": src, "src_kind": src_kind, "limits_user": _show(limits_user), "re": re_,
+        tr = {"k": "font", "src": src, "src_kind": src_kind, "limits_user": json.dumps(_show(limits_user), sort_keys=True), "re": json.dumps(re_),
               "lims": [[rat(v) for v in l] for l in lims_full], "locs": [[rat(v) for v in loc] for loc in locs]}
         try:
             keys = c08_project.choose_items(font, rng, max_glyphs=max_glyphs, max_points=max_points)
@@ -57,7 +57,7 @@ def font_trace(data, src, src_kind, limits_user, lims_full, locs, optimize, seed
         except NotImplementedError as e:
             return {"k": "skip", "why": "instancer: NotImplementedError %s" % str(e)[:60]}
         except Exception as e:
-            return {"k": "exc", "of": {"k": "font", "fn": "font", "src": src, "limits_user": _show(limits_user), "re": re_},
+            return {"k": "exc", "of": {"k": "font", "fn": "font", "src": src, "limits_user": json.dumps(_show(limits_user), sort_keys=True), "re": json.dumps(re_)},
                     "what": "instantiateVariableFont raised %s: %s (%s, limits %s)" % (type(e).__name__, str(e)[:200], src, _show(limits_user))}
         try:
             proj = c08_project.project(inst, keys, tags, interner)
@@ -373,6 +373,8 @@ def work(task):
 
 def replay_traces(t):
     re_ = t.get("re") or {}
+    if isinstance(re_, str):
+        re_ = json.loads(re_)
     if re_.get("kind") == "model":
         return [model_trace(re_["case"], re_["D"], re_["variant"], re_["seed"], re_["optimize"])]
     if re_.get("kind") == "corpus":
